@@ -167,7 +167,7 @@ def run(pid, tier, seed):
         missing = [t for t in REQUIRED_TAGS if not camp.counters.get("tag:" + t)]
         if missing:
             raise core.HarnessError("generator never produced: %s" % missing)
-    return core.finish(pid, tier, seed, camp, RULE, t0, assumptions=[
+    return core.finish(pid, tier, seed, camp, RULE, t0, replay_fn=replay, assumptions=[
         "the conforming grammar of DESIGN §4.1 is the trusted definition of 'respects every rule the Norm states' (narrowest reading)",
         "forked CLI adapter is cross-checked against the real CLI by C04/C16",
     ])
